@@ -218,14 +218,29 @@ def main(tier: str) -> int:
               "def showR : Option Rat → String | none => \"none\" | some q => toString q.num ++ \"/\" ++ toString q.den"]
     for a_, b_ in acases:
         alines.append("#eval IO.println (showR (Metrics_accuracy_score %s %s))" % (a_, b_))
+    mcases = []
+    for _ in range(20 if tier == "quick" else 150):
+        n_ = rng.randint(1, 7)
+        mcases.append(([rng.randint(-8, 8) / 4 for _ in range(n_)], [rng.randint(-8, 8) / 4 for _ in range(n_)]))
+    alines.insert(0, "import TFV.Generated.Src.Metrics_mse")
+    qlist = lambda v: "[" + ", ".join("(%d : Rat) / 4" % int(round(x * 4)) for x in v) + "]"   # noqa: E731
+    for a_, b_ in mcases:
+        alines.append("#eval IO.println (showR (Metrics_mse %s %s))" % (qlist(a_), qlist(b_)))
     aaudit = C.LEAN / "TFV" / "Audit" / "C19_np.lean"
     aaudit.parent.mkdir(parents=True, exist_ok=True)
     aaudit.write_text("\n".join(alines) + "\n")
     with C.LeanLock():
         apr = subprocess.run(["lake", "env", "lean", str(aaudit.relative_to(C.LEAN))], cwd=C.LEAN, capture_output=True, text=True, timeout=900)
     agot = [l.strip() for l in apr.stdout.splitlines() if l.strip()]
-    chk.obligation("the translated accuracy_score evaluates (lake env lean TFV/Audit/C19_np.lean)", apr.returncode == 0 and len(agot) == len(acases), (apr.stdout + apr.stderr)[-600:])
-    if apr.returncode == 0 and len(agot) == len(acases):
+    chk.obligation("the translated accuracy_score and mean squared error evaluate (lake env lean TFV/Audit/C19_np.lean)", apr.returncode == 0 and len(agot) == len(acases) + len(mcases),
+                   (apr.stdout + apr.stderr)[-600:])
+    if apr.returncode == 0 and len(agot) == len(acases) + len(mcases):
+        for (a_, b_), g in zip(mcases, agot[len(acases):]):
+            real = float(M.root_mean_square_error(np.array(a_, dtype=np.float64), np.array(b_, dtype=np.float64))) ** 2
+            val = None if g == "none" else int(g.split("/")[0]) / int(g.split("/")[1])
+            chk.count("np_kernel_mse")
+            (chk.agree("np_kernel:mse") if val is not None and C.close(real, val, 1e-9, 1e-12) else
+             chk.disagree("np_kernel:mse", {"input": {"y_true": a_, "y_predict": b_}, "impl_rmse_squared": real, "model": g}))
         for (a_, b_), g in zip(acases, agot):
             real = float(M.accuracy_score(np.array(a_, dtype=np.int64), np.array(b_, dtype=np.int64)))
             val = None if g == "none" else int(g.split("/")[0]) / int(g.split("/")[1])
